@@ -19,6 +19,8 @@
                                                             Result.is_successful() else "failed"; is_successful tests `if self.status:`)
    ReportWriter._add_step_log                               add_step_log (three asserts, in the code's order)
    ReportWriter.on_<event>                                  apply w e
+   _initialize_test_result: result.rank = (test.rank,        the key stored with each test is Events.n_rank of the event's node, i.e.
+     position of the test in its suite)                     Events.test_key rank position (order-isomorphic to the Python pair)
    accessors get_suites()/get_tests() (sorted by rank,      normalize : wstate -> report   (Report.v normal form; title, info,
      stable) + Report() defaults                            nb_threads, saving_time are the Report() defaults: no handler sets them)
    aggregate = feed a stream to a fresh writer              aggregate : list event -> res report
